@@ -19,6 +19,7 @@ IR of a program (every record carries every field; TLC records are strict; JSON 
 from __future__ import annotations
 
 import copy
+import collections.abc
 import functools
 import itertools
 import json
@@ -42,7 +43,9 @@ class B(A):  # noqa: D101 - B <: A
 
 
 PLAIN = {"int": int, "bool": bool, "str": str, "A": A, "B": B, "none": type(None)}
-GENERIC = {"list": list, "dict": dict, "tuple": tuple}
+GENERIC = {"list": list, "dict": dict, "tuple": tuple,
+           # abstract origins: list/tuple <: Sequence <: Iterable, dict <: Mapping <: Iterable
+           "seq": collections.abc.Sequence, "iter": collections.abc.Iterable, "mapping": collections.abc.Mapping}
 _PLAIN_BACK = {v: k for k, v in PLAIN.items()}
 _GEN_BACK = {v: k for k, v in GENERIC.items()}
 
@@ -110,8 +113,12 @@ def _layer(args1, args2, unions=True):
         if a["k"] != "none":
             out.append(opt(a))
     for a in args1:
+        out.append(T("seq", a))
+        out.append(T("iter", a))
+    for a in args1:
         for b in args2:
             out.append(T("dict", a, b))
+            out.append(T("mapping", a, b))
             out.append(T("tuple", a, b))
             if unions:
                 out.append(T("union", a, b))
@@ -127,7 +134,7 @@ def type_universe(tier, seed):
     rng = random.Random(seed)
     base = [T(k) for k in ("int", "bool", "str", "A", "B", "any")]
     cap2 = 520 if tier == "thorough" else 90
-    bare = [T("list"), T("dict"), T("tuple")]
+    bare = [T("list"), T("dict"), T("tuple"), T("seq"), T("iter"), T("mapping")]
     d0 = base + [T("none")]
     d1 = _layer(base, base) + bare
     d1 = _dedup(d0 + d1)
@@ -177,7 +184,7 @@ def fn(name, inputs=(), outputs=(), emit=(), wait_for=(), defaults=(), types=Non
     return {"name": name, "kind": "func", "inputs": list(inputs), "outputs": list(outputs), "emit": list(emit),
             "wait_for": list(wait_for), "defaults": [[p, v] for p, v in defaults], "targets": [], "multi": False,
             "intypes": [[p, types[p]] for p in inputs if p in types],
-            "outtypes": [[o, types[o]] for o in outputs if o in types], "sub": []}
+            "outtypes": [[o, types[o]] for o in outputs if o in types], "sub": [], "ren": []}
 
 
 def route(name, inputs, targets, multi=False, emit=(), wait_for=(), defaults=(), types=None):
@@ -192,9 +199,10 @@ def ifelse(name, inputs, when_true, when_false, emit=(), wait_for=(), defaults=(
     return n
 
 
-def gnode(name, sub):
+def gnode(name, sub, ren=()):
+    """Nested graph node; ren = [(inner input, exposed name)]: inner.as_node().with_inputs(inner=exposed)."""
     n = fn(name)
-    n.update(kind="graph", sub=[sub])
+    n.update(kind="graph", sub=[sub], ren=[list(r) for r in ren])
     return n
 
 
@@ -231,8 +239,9 @@ def finalize(p):
                     if o not in os_:
                         os_.append(o)
                     ot[o] = dict(map(tuple_pair, m["outtypes"])).get(o)
-            n["inputs"], n["outputs"], n["emit"] = ins, os_, []
-            n["intypes"] = [[x, it[x]] for x in ins if it.get(x)]
+            rmap = dict(map(tuple_pair, n["ren"]))
+            n["inputs"], n["outputs"], n["emit"] = [rmap.get(x, x) for x in ins], os_, []
+            n["intypes"] = [[rmap.get(x, x), it[x]] for x in ins if it.get(x)]
             n["outtypes"] = [[o, ot[o]] for o in os_ if ot.get(o)]
     names = set()
     if p["name"] != NONE:
@@ -307,6 +316,8 @@ def base_programs():
     inner = prog([fn("p", ["x"], ["y"]), fn("q", ["y", "k"], ["z"], defaults=[("k", "d1")])], name="inner")
     P.append(("nested", prog([fn("a", ["u"], ["x"]), gnode("inner", inner), fn("c", ["z", "k"], ["w"], defaults=[("k", "d1")])],
                              name="outer")))
+    P.append(("nested-renamed", prog([fn("a", ["u"], ["x"]), gnode("inner", copy.deepcopy(inner), ren=[("k", "kk")]),
+                                      fn("c", ["z", "kk"], ["w"], defaults=[("kk", "d1")])], name="outer")))
     inner2 = prog([ifelse("g", ["x"], "p", "q"), fn("p", ["x"], ["r"]), fn("q", ["x"], ["r"], emit=["e"]),
                    fn("s", ["r"], ["v"], wait_for=["e"])], name="sub")
     P.append(("nested-gate", prog([gnode("n", inner2), fn("c", ["v"], ["w"])])))
@@ -655,6 +666,8 @@ def build(p, path="", form="U", check_interface=True):
             inner = build(n["sub"][0], path + "/" + n["name"], form, check_interface)
             try:
                 node = inner.as_node(name=n["name"])
+                if n["ren"]:
+                    node = node.with_inputs(**{a: b for a, b in n["ren"]})
             except Exception as e:  # noqa: BLE001 - classified by the caller
                 raise Rejected("node-ctor", path, e) from e
             if check_interface and (set(node.inputs) != set(n["inputs"]) or set(node.outputs) != set(n["outputs"])):
